@@ -110,6 +110,23 @@ Fixpoint charge_from (n i : nat) (a : Z) (l : list src) (q : list nat) (ev : lis
   end.
 Definition charge_all (l : list src) (a : Z) := charge_from (length l) 0 a l [] [] false.
 
+(* The order in which queued completions are popped is not part of C14.  An access / completion op may carry a
+   preference list: the queue is rearranged so that the preferred sources come first (in the given order), the
+   others keep their order.  With an empty list this is the library's FIFO queue; with the right lists it is any
+   other pop order (LIFO, priority ...).  `reorder q p` is always a permutation of q. *)
+Fixpoint remove_first (x : nat) (q : list nat) : list nat :=
+  match q with
+  | [] => []
+  | y :: t => if Nat.eqb x y then t else y :: remove_first x t
+  end.
+Fixpoint mem_nat (x : nat) (q : list nat) : bool :=
+  match q with [] => false | y :: t => Nat.eqb x y || mem_nat x t end.
+Fixpoint reorder (q : list nat) (p : list nat) : list nat :=
+  match p with
+  | [] => q
+  | x :: p' => if mem_nat x q then x :: reorder (remove_first x q) p' else reorder q p'
+  end.
+
 (* the aggregate coroutine reached `o`: what its consumer sees and where it parks *)
 Definition apply_outcome (g : agg) (l : list src) (r : outcome * list nat * nat * option Z) (y : Z) : agg * res :=
   let '(o, q, c, x) := r in
@@ -142,8 +159,8 @@ Fixpoint drain (q : list nat) (cnt : nat) : list nat * nat * bool :=
 Inductive op :=
 | OSource (sc : list instr)
 | OBuild
-| OAccess (y a : Z)
-| OComplete (i : nat) (v : Z)
+| OAccess (y a : Z) (p : list nat)
+| OComplete (i : nat) (v : Z) (p : list nat)
 | ODestroy
 | OPeek
 | OBad.
@@ -183,11 +200,12 @@ Definition step (ha : bool) (g : agg) (x : op) : agg * obs :=
                 (g1, mkObs 0 RNone false (done_flag g1) [])
       | _ => (g, rejected)
       end
-  | OAccess y a =>
+  | OAccess y a p =>
       if idle g && style_ok ha y then
         match ast g with
         | AInit =>
-            let '(l, q, ev, e) := charge_all (srcs g) a in
+            let '(l, q0, ev, e) := charge_all (srcs g) a in
+            let q := reorder q0 p in
             let g0 := mkAgg l q (count g) (aexp g) (ast g) (aret g) (aexn g) (adone g) (aout g) (aerr g || e) in
             let '(g1, r) := apply_outcome g0 l (agg_loop l q (count g) (aexp g)) y in
             (g1, mkObs 0 r false (done_flag g1) ev)
@@ -195,7 +213,7 @@ Definition step (ha : bool) (g : agg) (x : op) : agg * obs :=
             match charge (get_src (srcs g) i) a with
             | Some (s1, b, e) =>
                 let l := set_src (srcs g) i s1 in
-                let q := if b then queue g ++ [i] else queue g in
+                let q := reorder (if b then queue g ++ [i] else queue g) p in
                 let '(g1, r) := apply_outcome g l (agg_loop l q (count g) (aexp g)) y in
                 (g1, mkObs 0 r false (done_flag g1) (tag_ev i e))
             | None =>      (* next_async throws no_more_values_exception inside the try block: remembered, fin *)
@@ -209,7 +227,7 @@ Definition step (ha : bool) (g : agg) (x : op) : agg * obs :=
         | _ => (g, rejected)
         end
       else (g, rejected)
-  | OComplete i v =>
+  | OComplete i v p =>
       match ast g with
       | ANew | ADead => (g, rejected)
       | _ =>
@@ -222,7 +240,7 @@ Definition step (ha : bool) (g : agg) (x : op) : agg * obs :=
               match ast g with
               | AWait =>
                   match aout g with
-                  | Some y => let '(g1, r) := apply_outcome g l (agg_loop l q (count g) (aexp g)) y in
+                  | Some y => let '(g1, r) := apply_outcome g l (agg_loop l (reorder q p) (count g) (aexp g)) y in
                               (g1, mkObs 0 r false (done_flag g1) (tag_ev i e))
                   | None => (g, rejected)
                   end
@@ -272,8 +290,8 @@ Definition decode (ha : bool) (l : list Z) : op :=
   match l with
   | 10 :: sc => if Nat.even (length sc) then OSource (decode_script ha sc) else OBad
   | [0] => OBuild
-  | [1; y; a] => OAccess y a
-  | [2; i; v; _] => if 0 <=? i then OComplete (Z.to_nat i) v else OBad
+  | 1 :: y :: a :: p => OAccess y a (map Z.to_nat p)
+  | 2 :: i :: v :: _ :: p => if 0 <=? i then OComplete (Z.to_nat i) v (map Z.to_nat p) else OBad
   | [3] => ODestroy
   | [4] => OPeek
   | _ => OBad
@@ -382,7 +400,7 @@ Fixpoint args_ok (ops : list op) (os : list (Z * Z * Z * Z * Z * list Z)) (last_
   | x :: ops', o :: os' =>
       let here :=
         match x with
-        | OAccess _ a =>
+        | OAccess _ a _ =>
             if ob_st o =? 0 then
               forallb (fun t => let '(c, s, v) := t in
                                 if c =? 3 then (v =? a) && (match last_src with Some ls => s =? ls | None => true end) else true)
@@ -416,7 +434,7 @@ Definition aggr_oracle (ha : bool) (wops wobs : list (list Z)) : bool :=
   let ops := map (decode ha) wops in
   let os := map dec_obs wobs in
   let scs := scripts_of ops os in
-  let osd := map snd (filter (fun p => match fst p with OAccess _ _ | OComplete _ _ => true | _ => false end) (combine ops os)) in
+  let osd := map snd (filter (fun p => match fst p with OAccess _ _ _ | OComplete _ _ _ => true | _ => false end) (combine ops os)) in
   let vals := out_values osd in
   let terms := out_terminals osd in
   let echo := existsb has_echo scs in
